@@ -16,12 +16,16 @@
 // Package verifhook provides instrumentation points for deterministic simulation.
 // With the 'verif' build tag the functions forward to handlers installed by a simulator;
 // when no handler is installed they do nothing, except that VERIF_HOOK_KILL_AT=N makes the
-// process kill itself (SIGKILL, no clean-up) at the N-th storage point it reaches.
+// process kill itself (SIGKILL, no clean-up) at the N-th storage point it reaches, and
+// VERIF_HOOK_FAIL_AT=N makes the N-th storage operation it enters fail with an error
+// (VERIF_HOOK_FAIL_AT=N+ : that one and every later one).
 package verifhook
 
 import (
+	"errors"
 	"os"
 	"strconv"
+	"strings"
 	"sync/atomic"
 	"syscall"
 )
@@ -37,7 +41,14 @@ var (
 
 	killAt    int64
 	pointsHit atomic.Int64
+
+	failAt      int64
+	failOnwards bool
+	entriesHit  atomic.Int64
 )
+
+// ErrInjected is what a storage operation chosen by VERIF_HOOK_FAIL_AT returns.
+var ErrInjected = errors.New("verifhook: injected storage fault")
 
 //nolint:gochecknoinits
 func init() {
@@ -46,6 +57,24 @@ func init() {
 			killAt = n
 		}
 	}
+	if v := os.Getenv("VERIF_HOOK_FAIL_AT"); v != "" {
+		failOnwards = strings.HasSuffix(v, "+")
+		if n, err := strconv.ParseInt(strings.TrimSuffix(v, "+"), 10, 64); err == nil {
+			failAt = n
+		}
+	}
+}
+
+func countAndMaybeFail() error {
+	if failAt <= 0 {
+		return nil
+	}
+	n := entriesHit.Add(1)
+	if n == failAt || (failOnwards && n > failAt) {
+		return ErrInjected
+	}
+
+	return nil
 }
 
 func countAndMaybeKill() {
@@ -62,6 +91,9 @@ func countAndMaybeKill() {
 // Point marks entry to a storage operation.
 func Point(store any, op string, key []byte) error {
 	countAndMaybeKill()
+	if err := countAndMaybeFail(); err != nil {
+		return err
+	}
 	if h := PointHandler; h != nil {
 		return h(store, op, key)
 	}
